@@ -51,6 +51,9 @@ package cty
 //@   let kt (vty (cty.IndexStep.Key s))
 //@   ensures[C19] list: (=> (and (is_list_ty t) (is_number_ty kt) (kn val) (kn key)) (and (= (= result.1 nil.Any) (seq_has val key)) (=> (= result.1 nil.Any) (= (inner_v result.0) (strip (pl_seq_at val (bf.int64 (bf_of key))))))))
 //@   ensures[C19] tuple: (=> (and (is_tuple_ty t) (is_number_ty kt) (kn val) (kn key)) (and (= (= result.1 nil.Any) (tup_has val key)) (=> (= result.1 nil.Any) (= (inner_v result.0) (strip (pl_seq_at val (bf.int64 (bf_of key))))))))
+// a tuple's members are named by its type: with a known key the step succeeds exactly for the indices of the
+// type, known tuple or not, and the result has the member's type
+//@   ensures[C19] tuple_any: (=> (and (is_tuple_ty t) (is_number_ty kt) (not (= val $G<cty.NilVal>)) (not (is_null val)) (kn key)) (and (= (= result.1 nil.Any) (tup_has val key)) (=> (= result.1 nil.Any) (= (vty result.0) (tuple_at t (bf.int64 (bf_of key)))))))
 //@   ensures[C19] map: (=> (and (is_map_ty t) (is_string_ty kt) (kn val) (kn key)) (and (= (= result.1 nil.Any) (map_has val key)) (=> (= result.1 nil.Any) (= (inner_v result.0) (strip (select (MapC<String~Any>.val (pl_mapc val)) (str_of key)))))))
 //@   ensures[C19] wrongshape: (=> (or (= val $G<cty.NilVal>) (is_null val) (not (or (and (is_number_ty kt) (or (is_list_ty t) (is_tuple_ty t))) (and (is_string_ty kt) (is_map_ty t))))) (not (= result.1 nil.Any)))
 //@   ensures[C19] wf: (=> (= result.1 nil.Any) (wf_deep result.0))
